@@ -268,6 +268,60 @@ def codec_hooks(rep: Report, prog: Program) -> None:
                    if "decoder" in h else "values handed to the standard json functions are not encoded/decoded on that route"), fi.where())
 
 
+# pydantic-core schema builders that convert the value they validate (lax mode: 5 -> 5.0, "5" -> 5, 5.0 -> 5, ...)
+COERCING_SCHEMAS = {"float_schema", "int_schema", "decimal_schema", "bool_schema", "complex_schema", "bytes_schema",
+                    "date_schema", "time_schema", "datetime_schema", "timedelta_schema", "literal_schema", "enum_schema",
+                    "list_schema", "tuple_schema", "set_schema", "frozenset_schema", "dict_schema", "model_schema",
+                    "dataclass_schema", "json_schema", "url_schema", "uuid_schema", "nullable_schema", "with_default_schema"}
+
+
+def pydantic_schema(rep: Report, prog: Program) -> None:
+    """The statement makes the pydantic representation the JSON encoding: the validator handed to pydantic has to be the
+    library's own decoder and the serializer its own encoder.  A schema of pydantic's in front of the decoder validates -
+    and in lax mode converts - the magnitude before __from_json__ sees it (float_schema turns every JSON integer into a
+    float), so the magnitude type written by __json__ no longer comes back."""
+    n = 0
+    for cname in ("Quantity", "Unit", "Dimension", "Prefix"):
+        ci = prog.cls(cname)
+        q = ci.methods.get("__get_pydantic_core_schema__")
+        if q is None:
+            continue
+        fi = prog.func(q)
+        n += 1
+        calls = [c for c in ast.walk(fi.node) if isinstance(c, ast.Call)]
+        coercing = [c for c in calls if (c.func.attr if isinstance(c.func, ast.Attribute) else getattr(c.func, "id", "")) in COERCING_SCHEMAS]
+        rep.check("R15.13", f"{cname}.__get_pydantic_core_schema__:no-coercing-schema", not coercing,
+                  f"{cname}'s pydantic schema runs " + ", ".join(sorted({ast.unparse(c.func) for c in coercing})) + " on the wire form before the "
+                  "library's decoder: pydantic converts the value it validates (an int magnitude comes back as a float), so the JSON "
+                  "round trip through a pydantic model no longer keeps the magnitude type", fi.where(coercing[0]) if coercing else fi.where())
+        # validators: every function handed to a *validator_function builder leads to __from_json__
+        vals: List[ast.AST] = []
+        sers: List[ast.AST] = []
+        for c in calls:
+            nm = c.func.attr if isinstance(c.func, ast.Attribute) else getattr(c.func, "id", "")
+            if nm.endswith("validator_function") and c.args:
+                vals.append(c.args[0])
+            if nm.endswith("serializer_function_ser_schema") and c.args:
+                sers.append(c.args[0])
+
+        def leads(e: ast.AST) -> bool:
+            if not (isinstance(e, ast.Attribute) and isinstance(e.value, ast.Name) and e.value.id in ("cls", cname)):
+                return False
+            if e.attr == "__from_json__":
+                return True
+            t = ci.methods.get(e.attr)
+            return t is not None and any(isinstance(x, ast.Attribute) and x.attr == "__from_json__" for x in ast.walk(prog.func(t).node))
+        okv = bool(vals) and all(leads(v) for v in vals)
+        rep.check("R15.13", f"{cname}.__get_pydantic_core_schema__:validator", okv,
+                  f"{cname}'s pydantic validator(s) {[ast.unparse(v) for v in vals]} do not all lead to {cname}.__from_json__ (the decoder "
+                  "of the library's JSON encoding)", fi.where())
+        oks = bool(sers) and all(isinstance(x, ast.Attribute) and x.attr == "__json__" for x in sers)
+        rep.check("R15.13", f"{cname}.__get_pydantic_core_schema__:serializer", oks,
+                  f"{cname}'s pydantic serializer(s) {[ast.unparse(x) for x in sers]} are not {cname}.__json__", fi.where())
+    if n == 0:
+        raise AnalysisError("no class defines __get_pydantic_core_schema__ (anchor of R15.13 moved)")
+
+
 def run(rep: Report) -> None:
     prog = Program()
     resolver = Resolver(prog)
@@ -290,6 +344,8 @@ def run(rep: Report) -> None:
     rep.rule("R15.8", "the unit text a quantity is stored under resolves back to that unit: every prefix x unit spelling and every name resolves "
              "to itself or to an equal-valued unit (the symbol-table rule of C13, at the serialisation sites)", floor=1000)
     rep.rule("R15.7", "Dimension/Prefix decoders rebuild from the encoded structural key (exponents; base and exponent) on every path", floor=2)
+    rep.rule("R15.13", "the pydantic schema hands the wire form to the library's own decoder and encoder (__from_json__ / __json__) with "
+             "no converting pydantic schema in between", floor=3)
     rep.rule("R15.6", "pickle/copy of a Quantity carry the Unit object itself (no custom reduce/copy hook routes it through text)", floor=1)
 
     # R15.1
@@ -552,5 +608,7 @@ def run(rep: Report) -> None:
     rep.check("R15.6", "Quantity:pickle-carries-unit", okq, f"{why}: pickle/copy re-parse str(unit), so the unit comes back as another "
               "object (kg for Kilo*Gram) or fails to parse", f"{qc.path}:{qc.node.lineno}")
     rep.check("R15.6", "Quantity:slots", "__slots__" in qc.class_attrs or not hooks, "Quantity lost its __slots__ (default pickling relied on them)", f"{qc.path}:{qc.node.lineno}")
+    # R15.13: the pydantic form is the JSON form - nothing of pydantic's own stands between the wire and __from_json__
+    pydantic_schema(rep, prog)
     rep.not_decided += ["equality of decoded float magnitudes (json float repr round-trip is trusted)", "third-party pickle variants beyond the pickle protocol hooks"]
     rep.trust("json/pickle/copy protocol semantics of CPython; E5 tables; shipped parser tables (C16)")
